@@ -295,7 +295,7 @@ pub fn mulxu<S: Src>(s: &mut S, mode: u8, sz: u8) {
 }
 
 /// DIVXU.B Rs,Rd (16/8) / DIVXU.W Rs,ERd (32/16); precondition: divisor != 0, quotient fits.
-pub fn divxu<S: Src>(s: &mut S, mode: u8, sz: u8) {
+pub fn divxu<S: Src>(s: &mut S, mode: u8, sz: u8, divisor_bits: u32) {
     let mut c: Ctx = ih::begin(s, PC_RAM);
     s.assume(c.code[0] == if sz == 1 { 0x51 } else { 0x53 });
     if sz == 2 {
@@ -307,6 +307,9 @@ pub fn divxu<S: Src>(s: &mut S, mode: u8, sz: u8) {
     let dividend = rm::reg_read(&c.pre.er, 2 * sz, fd);
     let divisor = rm::reg_read(&c.pre.er, sz, fs);
     s.assume(divisor != 0);
+    // stated bound of the quick tier for DIVXU.W: divisor below 2^divisor_bits (the full 32/16-bit query
+    // did not finish in 30 minutes with three different formulations of the reference)
+    s.assume(divisor < (1u64 << divisor_bits));
     // quotient fits  <=>  dividend < divisor * 2^bits  (no division needed to state it)
     s.assume(dividend < (divisor << bits));
     let r = c.step();
